@@ -46,3 +46,22 @@ package req
 //@   props C03
 //@   requires h != nil && r != nil
 //@   modifies *, r.pos, r.avail, r.failed
+
+// ---- C11: a buffered request is the header block, then exactly the body whose length the header announces ----
+//@ ghost var rwHdr int
+//@ ghost var rwCL int
+//@ func write(req, w, usingProxy) err
+//@   props C11
+//@   abstract
+//@   noinline
+//@   modifies rwHdr, rwCL
+//@   ghostset-at-entry rwHdr = 0
+//@   ghostset-at-entry rwCL = -5
+//@   ghostset after RequestHeader.SetContentLength: rwCL = arg1
+//@   assert before WriteBinary#0: rwHdr == 0
+//@   ghostset after WriteBinary#0: rwHdr = 1
+//@   assert before WriteBinary#1: rwHdr == 1 && rwCL == len(arg1) && hasBody
+//@   ghostset after WriteBinary#1: rwHdr = 2
+//@   assert before writeBodyStream: rwHdr == 0
+//@   unreachable-return 5 :: hasBody is set whenever the body is non-empty, so the "non-zero body for non-POST request" return is dead
+
